@@ -551,7 +551,7 @@ def split_ret(sig):
 
 
 def extract_fn(repo, rel, qualname, contract_lines, loops, ats, rewrites, stub=False, ret_name='r',
-               impl_header=None, info=None, props=None, emit_as=None):
+               impl_header=None, info=None, props=None, emit_as=None, attrs=()):
     raw, src = repo.src(rel)
     if '::' in qualname and impl_header is None:
         impl_header, name = qualname.rsplit('::', 1)
@@ -583,6 +583,8 @@ def extract_fn(repo, rel, qualname, contract_lines, loops, ats, rewrites, stub=F
         rec['emitted_as'] = emit_as
     if stub:
         out.append('#[verifier::external_body]')
+    for at in attrs:
+        out.append(at)
     line = vis + head
     if ret is not None:
         line += ' -> (%s: %s)' % (ret_name, ret)
@@ -780,6 +782,7 @@ def process_template(template_path, repo_root, include_dirs=(), restrict=()):
             ats = []
             rewrites = []
             findings_seen = []
+            fn_attrs = []
             cur = contract
             i += 1
             while i < n and lines[i].strip() != '//@end':
@@ -790,7 +793,7 @@ def process_template(template_path, repo_root, include_dirs=(), restrict=()):
                     spec = {'lines': [], 'iter': kv2.get('iter')}
                     loops[int(tk2[1])] = spec
                     cur = spec['lines']
-                elif t.startswith('//@@at'):
+                elif t.startswith('//@@at') and not t.startswith('//@@attr'):
                     mm = re.match(r'//@@at\s+(before|after|bodystart|bodyend)(?:\s+"(.*)")?\s*$', t)
                     if not mm:
                         raise ExtractError("bad //@@at line: %s" % t)
@@ -807,6 +810,8 @@ def process_template(template_path, repo_root, include_dirs=(), restrict=()):
                         ats.append((mm.group(2) or 'bodystart', mm.group(3), buf))
                     findings_seen.append(fid)
                     cur = buf
+                elif t.startswith('//@@attr'):
+                    fn_attrs.append(t[len('//@@attr'):].strip())
                 elif t.startswith('//@@rewrite'):
                     mm = re.match(r'//@@rewrite\s+"(.*)"\s*=>\s*"(.*)"\s*$', t)
                     if not mm:
@@ -823,7 +828,7 @@ def process_template(template_path, repo_root, include_dirs=(), restrict=()):
             start = len(out_lines) + 1
             emit(extract_fn(repo, rel, qual, contract, loops, ats, rewrites, stub=('stub' in flags),
                             ret_name=kv.get('ret', 'r'), impl_header=impl_header, info=items,
-                            props=kv.get('props', '').split(',') if kv.get('props') else [], emit_as=kv.get('as')))
+                            props=kv.get('props', '').split(',') if kv.get('props') else [], emit_as=kv.get('as'), attrs=fn_attrs))
             if kv.get('as'):
                 qual = (impl_header.split(' for ')[-1] + '::' if impl_header and ' for ' in impl_header else '') + kv['as']
                 items[-1]['name'] = qual
